@@ -1070,7 +1070,7 @@ func (g *clientEngine) runCase(c *clientCase) (err error) {
 			}
 			if !match {
 				g.fail(c, "client-confirmed-mismatching-sct", fmt.Sprintf("%s: CheckInclusion confirmed an SCT {version %d, log id %x, timestamp %d, extensions %x} that does not match the authentic leaf (log id %x)",
-					name, sct.Version, sct.LogID[:6], sct.Timestamp, sct.Extensions, lg.keyID[:6]))
+					name, sct.Version, sct.LogID[:], sct.Timestamp, sct.Extensions, lg.keyID[:]))
 			}
 		} else if pristine && c.Index >= 0 && c.Index < int64(lg.n) {
 			g.fail(c, "client-pristine-incomplete", fmt.Sprintf("%s: CheckInclusion of the genuine SCT of leaf %d on an untampered log: %v", name, c.Index, cerr))
